@@ -4,6 +4,7 @@ package main
 
 import (
 	"reflect"
+	"regexp"
 	"sort"
 	"strings"
 
@@ -153,4 +154,27 @@ func leafMapDiff(a, b map[string]string, max int) []string {
 		out = out[:max]
 	}
 	return out
+}
+
+var reVInt = regexp.MustCompile(`^(?:\(TLeaf )?\(VInt ([IU][0-9]+) (\(?-?[0-9]+\)?)%Z\)\)?$`)
+
+// sameNumberOtherKind: two scalar terms that are integers with the same value and different
+// width kinds ((VInt U8 75%Z) vs (VInt U64 75%Z)): what a union with two integer members holds
+// before and after a trip through gNMI, whose uint_val/int_val do not carry the member type.
+func sameNumberOtherKind(a, b string) bool {
+	ma, mb := reVInt.FindStringSubmatch(a), reVInt.FindStringSubmatch(b)
+	return ma != nil && mb != nil && ma[1] != mb[1] && strings.Trim(ma[2], "()") == strings.Trim(mb[2], "()")
+}
+
+// unionIntKindOnly: every key of d differs between x and y only in the width kind of an integer.
+func unionIntKindOnly(d []string, x, y map[string]string) bool {
+	if len(d) == 0 {
+		return false
+	}
+	for _, k := range d {
+		if !sameNumberOtherKind(x[k], y[k]) {
+			return false
+		}
+	}
+	return true
 }
